@@ -4,6 +4,7 @@ package main
 
 import (
 	"fmt"
+	"math/big"
 	"go/token"
 	"go/types"
 	"strings"
@@ -150,8 +151,9 @@ func init() {
 		"time.Sleep":            func(fr *frame, fn *ssa.Function, a []value) value { fr.in.sleep(fr.g); return nil },
 		"github.com/google/uuid.New": func(fr *frame, fn *ssa.Function, a []value) value { return zero(fn.Signature.Results().At(0).Type()) },
 		"(github.com/google/uuid.UUID).String": func(fr *frame, fn *ssa.Function, a []value) value {
+			// a fresh identifier: a constant of the Str sort outside every block symbolic strings range over
 			fr.in.uuidSeq++
-			return fmt.Sprintf("uuid-%d", fr.in.uuidSeq)
+			return &Sym{T: fr.in.ts.mk("const", sortStr, nil, "", big.NewInt(int64(3<<24+fr.in.uuidSeq)))}
 		},
 
 		// sync
